@@ -20,7 +20,8 @@ RULE = (
     "eight exhaustive lattices.  wmom-1d: x in V^L (V = 0,1,2.5,-1,10 + one seed-chosen generic value) "
     "x w in {1,2,0,1e6}^L (sum>0) x inputmean {None,1.5,1-element array} x container {f8,list,i8}; every case "
     "calls wmom with all four calcerr/sdev settings and (no inputmean) wmedian; non-trivial = weights not all "
-    "equal or a mean supplied.  wmom-nd: every N-by-d matrix (N,d<=3) over {0,2.5,-1} x (every 1-d weight "
+    "equal or a mean supplied.  wmom-nd: every N-by-d matrix (N,d<=3) over {0,2.5,-1} (3x3: columns from a "
+    "5-column pool, thorough: 27x27x5 columns) x (every 1-d weight "
     "vector over {1,2,0,1e6} + every N-by-d weight matrix whose columns come from a pool of 4) x inputmean "
     "{None,1.5,[d]-array}; non-trivial = d>=2 and columns (data or weights) differ.  wmedian-long: all "
     "permutations of 5 (6) distinct values and all 0/1 patterns x all weight tuples.  sigma-clip: base data "
@@ -28,7 +29,7 @@ RULE = (
     "so that a point lies EXACTLY on the nsig boundary) + every tuple of <=k outliers from {50,-30,4,1.6} x "
     "two orderings x weights {None,ones,ramp,alternating 1/2} x nsig x niter 0..10 x return flags; "
     "non-trivial = something is clipped, a point is exactly on the boundary, or the loop ends by the "
-    "iteration limit.  interplin: every strictly increasing table of 2..5 (6) nodes drawn from an 8-value "
+    "iteration limit.  interplin: every strictly increasing table of 2..5 (thorough: 2..8) nodes drawn from an 8-value "
     "grid x 4 value sets x every node, midpoint, 1-ulp neighbour of the ends, far outside point, as one "
     "array call and as scalar calls; non-trivial = all but the queries strictly inside at non-nodes.  "
     "get-stats: 1-d/2-d data x weights x wmom keywords x clipping keywords; cov-cor: every symmetric matrix "
@@ -511,11 +512,14 @@ def main(ctx):
             out.append(("nd", wc))
         return out
 
-    full33 = ctx.pick(False, True)
+    # 3x3 matrices: quick = 5-column pool for every column; thorough = all 27 columns for the
+    # first two columns, the 5-column pool for the third (the columns are independent in the
+    # definition; what a third full column could add is covered by the 3x2 / 2x3 full products)
+    mode33 = ctx.pick("pool5^3", "27x27x5")
     unitsn = []
     for N in (1, 2, 3):
         for d in (1, 2, 3):
-            red = (N == 3 and d == 3 and not full33)
+            red = (N == 3 and d == 3 and ctx.quick)
             for c0 in colpool(N, red):
                 unitsn.append((N, d, c0, red))
 
@@ -523,14 +527,18 @@ def main(ctx):
         N, d, c0, red = u
         ims = (None, 1.5, ("arr", tuple(1.5 - j for j in range(d))))
         ws = wspecs(N, d)
-        for rest in itertools.product(colpool(N, red), repeat=d - 1):
+        if N == 3 and d == 3 and not red:
+            rests = itertools.product(colpool(3, False), colpool(3, True))
+        else:
+            rests = itertools.product(colpool(N, red), repeat=d - 1)
+        for rest in rests:
             xcols = (c0,) + rest
             for wspec in ws:
                 for im in ims:
                     yield (xcols, wspec, im)
 
     ctx.lattice("wmom-nd", unitsn, one_wn, expand=expandn,
-                bounds=dict(N=[1, 2, 3], d=[1, 2, 3], x_alphabet=list(XA), full_3x3=full33,
+                bounds=dict(N=[1, 2, 3], d=[1, 2, 3], x_alphabet=list(XA), columns_3x3=mode33,
                             w1d_alphabet=list(W), wnd_column_pool={str(k): [list(c) for c in v]
                                                                    for k, v in WPOOL.items()},
                             inputmean=[None, 1.5, "array(1.5 - arange(d))"]))
@@ -710,7 +718,7 @@ def main(ctx):
         rec.ok(case, outcome=oc, nontrivial=bool(regions - {"inside"}), calls=1)
 
     GRID = (-2.0, -1.5, 0.0, 0.001, 1.0, 4.0, 4.5, 1000.0)
-    NMAX = ctx.pick(5, 6)
+    NMAX = ctx.pick(5, 8)
 
     def valuesets(xt):
         return [tuple(a * a for a in xt), tuple(1.0 - a for a in xt),
@@ -877,7 +885,8 @@ def main(ctx):
     for L in range(1, LG + 1):
         for x0 in VG:
             unitsg.append(("1d", L, x0))
-    for N, d in ((1, 2), (2, 2), (3, 2), (2, 3)) + ctx.pick((), ((3, 3),)):
+    SH2 = ((1, 2), (2, 2), (3, 2)) + ctx.pick((), ((2, 3), (3, 3)))
+    for N, d in SH2:
         for c0 in colpool(N, N == 3 and d == 3):
             unitsg.append(("2d", N, d, c0))
     clipsets = []
@@ -922,7 +931,7 @@ def main(ctx):
 
     ctx.lattice("get-stats", unitsg, one_gs, expand=expandg,
                 bounds=dict(max_len_1d=LG, x_alphabet=list(VG), w_alphabet=list(W),
-                            shapes_2d=[[1, 2], [2, 2], [3, 2], [2, 3]] + ctx.pick([], [[3, 3]]),
+                            shapes_2d=[list(t) for t in SH2],
                             wmom_keywords=[dict(k) for k in KWW], clip_keywords=[dict(k) for k in CLIPKW],
                             clip_data_sets=len(clipsets)))
 
